@@ -42,6 +42,26 @@ func newSymVote(reg *stub.Registry, name string, withProof bool, prepares int) *
 	return v
 }
 
+func btoi(b bool) int {
+	if b {
+		return 1
+	}
+	return 0
+}
+
+// genuineSymVote: member idx's genuine proof-less vote for (this instance, height 1, view), in the shape of a symVote
+func genuineSymVote(wd *vWorld, idx int, view primitives.View) *symVote {
+	v := &symVote{instance: vInstance, height: 1, view: view, typ: protocol.LEAN_HELIX_VIEW_CHANGE}
+	hb := &protocol.ViewChangeHeaderBuilder{MessageType: v.typ, InstanceId: v.instance, BlockHeight: v.height, View: v.view}
+	content := hb.Build().Raw()
+	id := []byte{byte(idx + 1)}
+	sig := wd.reg.Sign(stub.KindConsensus, id, 1, content)
+	v.snd = &symSender{id: id[0], sig: sig, reg: wd.reg, height: 1, content: content}
+	v.snd.b = &protocol.SenderSignatureBuilder{MemberId: primitives.MemberId(id), Signature: sig}
+	v.b = &protocol.ViewChangeMessageContentBuilder{SignedHeader: hb, Sender: v.snd.b}
+	return v
+}
+
 // C07_NewView: a node that timed out to view 1 (prefix 3: no lock, prefix 4: locked) or is still in
 // view 0 (prefix 0) receives one NEW_VIEW in which every field of the header, of the embedded
 // proposal and of each of the `votes` confirmations is symbolic.
@@ -60,11 +80,22 @@ func C07_NewView() {
 	cur := n.m.state.HeightView()
 	H, V := cur.Height(), cur.View()
 
+	nvInstance := primitives.InstanceId(env.NondetU64("nv_instance"))
+	nvHeight := primitives.BlockHeight(env.NondetU64("nv_height"))
+	nvView := primitives.View(env.NondetU64("nv_view"))
 	var vs []*symVote
 	var vbs []*protocol.ViewChangeMessageContentBuilder
 	prepares2 := env.Param("prepares2") // PREPARE senders in the proofs of the votes after the first proof-carrying one (-1: same)
+	// genuine: the first g votes are genuine proof-less votes for (this instance, this height, the NEW_VIEW's view) of the
+	// heaviest other members (so that, with unequal weights, a prefix of the vote list already reaches the quorum)
+	genuine := env.ParamOr("genuine", 0)
 	first := true
 	for i := 0; i < votes; i++ {
+		if i < genuine {
+			vs = append(vs, genuineSymVote(wd, []int{3, 2, 1, 0}[i+btoi(me >= 3-i)], nvView))
+			vbs = append(vbs, vs[i].b)
+			continue
+		}
 		k := prepares
 		if mask&(1<<uint(i)) != 0 {
 			if !first && prepares2 >= 0 {
@@ -76,9 +107,6 @@ func C07_NewView() {
 		vs = append(vs, v)
 		vbs = append(vbs, v.b)
 	}
-	nvInstance := primitives.InstanceId(env.NondetU64("nv_instance"))
-	nvHeight := primitives.BlockHeight(env.NondetU64("nv_height"))
-	nvView := primitives.View(env.NondetU64("nv_view"))
 	nh := &protocol.NewViewHeaderBuilder{MessageType: protocol.MessageType(env.NondetU16("nv_type")), InstanceId: nvInstance, BlockHeight: nvHeight, View: nvView, ViewChangeConfirmations: vbs}
 	nvSnd := newSymSender(wd.reg, "nv_s", uint64(nvHeight), nh.Build().Raw())
 	pp := newSymRef("pp")
@@ -104,6 +132,9 @@ func C07_NewView() {
 		return
 	}
 	env.Reach("C07.accepted")
+	// common to both clauses (block certified by a proof / consumer-validated fresh block): the adopted proposal's
+	// block satisfies the hash the embedded PREPREPARE signs (an empty hash is satisfied by no block)
+	env.Assert("C07.proposal.block_matches_hash", blk != nil && stub.Commits(blk, pp.b.BlockHash))
 	after := n.m.state.HeightView()
 	env.Assert("C07.nv.sig", nvSnd.isValid())
 	env.Assert("C07.nv.leader", nvSnd.id == ref.leader(nvView))
